@@ -94,6 +94,28 @@ def run(run, scr, tier, seed, only=None):
         open_sites = site_inventory(run, sess, funcs)
     except e2.Refuse as ex:
         run.inconclusive.append('E2 refused: ' + str(ex))
+    # per-coefficient closures and scalar kernels: every no-panic obligation and every range / value post-condition that a callee's
+    # self-check relies on (power2round input, bit_pack ranges, reductions' documented domains) - the lemma suite shared with C01-C11
+    suite_bad = []
+    try:
+        import skelsuite
+        sess.quiet_sat = True
+        suite = skelsuite.Suite(run, sess, funcs, scr)
+        allres = suite.run_all()
+        keepq = []
+        for q in run.queries:      # the suite's solver queries are recorded through its own result list below
+            if not str(q.get('engine', '')).startswith('E2 mir->smt'):
+                keepq.append(q)
+        run.queries = keepq
+        run.inconclusive = [m for m in run.inconclusive if not m.startswith(('sign:', 'verify:', 'keygen:', 'derive:', 'sk into', 'pk into', 'expand_'))]
+        for r in allres:
+            if r['verdict'] == 'refused' or r['name'].startswith('hint_bit_'):
+                continue
+            run.add_query({'name': 'closure / kernel lemma: ' + r['name'], 'engine': 'E2 skeleton/lemma', 'verdict': 'holds' if r['verdict'] == 'holds' else 'sat', 'detail': r['detail'][:200]}, core=r['verdict'] == 'holds')
+            if r['verdict'] == 'mismatch':
+                suite_bad.append(r)
+    except e2.Refuse as ex:
+        run.inconclusive.append('E2 refused (lemma suite): ' + str(ex))
     # decoders on arbitrary bytes: loop-step lemmas of hint_bit_unpack incl. every index-bounds / overflow obligation of its checked MIR
     # under the loop invariant (K, omega symbolic); if the decoder was restructured so that the lemmas do not apply, the Kani window harness decides
     import hintlemmas
@@ -156,6 +178,25 @@ def run(run, scr, tier, seed, only=None):
             run.violation('panic:decoder:' + decoder_panics[0].detail[:60], f'decoder panics on hostile bytes: {decoder_panics[0].detail}; native: {msgs8[:2]} {res8}', path)
         else:
             run.inconclusive.append(f'decoder harness reports a reachable panic ({decoder_panics[0].detail}) that the native codec workload does not reproduce')
+    if suite_bad and not locs:
+        # a lemma that no longer holds is a panic only if a self-check downstream fires: directed native searches in an optimised build
+        # with debug assertions and overflow checks on (key generation + derivation over 20000 seeds, signing, (de)serialisation)
+        import diffnative
+        found = []
+        for what, ns, nm in (('keygen_search', 20000, 0), ('sign', 2, 40), ('serdes', 2, 0)):
+            oc2, msgs2 = diffnative.run(scr, what, seed=seed + 1, n_seeds=ns, n_msgs=nm, checked=True)
+            pan = [m for m in msgs2 if 'panics' in m or 'panicked at src/' in m]
+            run.add_query({'name': f'directed native search `{what}` (optimised build with debug assertions + overflow checks)', 'engine': 'native replay', 'verdict': 'sat' if pan else ('holds' if oc2 == 'pass' else 'unknown'), 'detail': str(pan[:2])[:300]}, core=False)
+            if pan:
+                found.append((what, pan))
+        if found:
+            what, pan = found[0]
+            ploc = sorted(set(re.findall(r'panicked at (src/[\w/\.]+:\d+)', ' '.join(pan))))
+            path = vlib.save_replay('C13', 'lemma', {'property': 'C13', 'kind': 'lemma', 'search': what, 'seed': seed + 1, 'lemmas': [(r['name'], r['detail'][:200]) for r in suite_bad[:6]], 'panics': pan[:6]})
+            run.violation('panic:lemma:' + (ploc[0] if ploc else suite_bad[0]['name'][:50]), f'lemma `{suite_bad[0]["name"][:120]}` no longer holds and a self-check fires on an accepted input: {pan[:2]}', path)
+        else:
+            run.extra['functional_lemma_mismatches_without_panic'] = [r['name'][:120] for r in suite_bad[:8]]
+            vlib.log(f'  {len(suite_bad)} lemma(s) do not hold but no panic was found by the directed searches: functional deviations are decided by C01-C11/C15/C18, not by C13')
     reported = ' '.join(locs)
     for (sname, fn, bb, msg, verdict) in open_sites:
         if not locs:
@@ -168,6 +209,16 @@ def run(run, scr, tier, seed, only=None):
 
 def replay(run, scr, path):
     p = json.load(open(path))
+    if p.get('kind') == 'lemma':
+        import diffnative
+        ns, nm = {'keygen_search': (20000, 0), 'sign': (2, 40), 'serdes': (2, 0)}[p['search']]
+        oc2, msgs2 = diffnative.run(scr, p['search'], seed=p.get('seed', 1), n_seeds=ns, n_msgs=nm, checked=True)
+        pan = [m for m in msgs2 if 'panics' in m or 'panicked at src/' in m]
+        vlib.log(f'replay {path}: {oc2} {pan[:3]}')
+        if pan:
+            vlib.log(f'VIOLATION property=C13 replay={path}')
+            return 1
+        return 0 if oc2 == 'pass' else 2
     if p.get('kind') == 'decoder':
         from props import c08
         res8, msgs8 = c08.native(scr)
